@@ -672,6 +672,14 @@ theorem C15_popen_wait_negative_counterexample (c : Cfg) (hg : c.Good) (h : c.po
   rw [popenWait_set exOther (some (-1)) 5 0 _ 0 rfl hg.popenRcFirst (by simp [h])] at h1
   cases h1
 
+/-- proof obligation on the translator's facts: the source as it is now (fix 3859330) validates the
+    timeout before looking at `returncode`; a return to the old order breaks this theorem -/
+theorem cfg_popen_validates_first : cfg.popenValidateFirst = true := by decide
+
+/-- **C15_popen_wait_negative.** The full statement for the code as it is now. -/
+theorem C15_popen_wait_negative : C15_popen_wait_negative_Full cfg :=
+  C15_popen_wait_negative_fixed cfg cfg_popen_validates_first
+
 /-! ### EINTR at the deadline (finding C15-eintr-deadline) cannot be repaired inside `wait_pid` -/
 
 /-- ANY procedure that learns about the process through waitpid answers only — whatever it does
